@@ -266,11 +266,13 @@ def run(ctx):
                                                and 'IKE_SA_INIT' in tq.text(x[0])) or
                                               (x[0][0] == 'attr' and x[0][2] == 'is_request' and x[1]))]
             ok = len(pc) == 1 and pc[0][1] is True and pc[0][0][0] == 'cmp' and pc[0][0][1] == '<' \
-                and pc[0][0][2] == ('attr', ('param', 'self'), 'cookie_threshold') and tq.is_call(pc[0][0][3], 'builtins.sum')
+                and pc[0][0][2] == ('attr', ('param', 'self'), 'cookie_threshold') and (tq.is_call(pc[0][0][3], 'builtins.sum') or tq.is_call(pc[0][0][3], 'builtins.len'))
             cnt = strip_ids(tq.args(pc[0][0][3]).get('#0', ('undef',))) if ok else None
             table = ('attr', ('param', 'self'), 'ike_sas')
+            # sum(1 for x in T if C) and len([.. for x in T if C]) are the same count (what the comprehension collects is immaterial)
             ok = ok and cnt[0] == 'list' and len(cnt[1]) == 1 and cnt[1][0][0] == 'each' and cnt[1][0][2] == table \
-                and cnt[1][0][4] == ('const', 'int', 1) and len(cnt[1][0][3]) == 1
+                and (cnt[1][0][4] == ('const', 'int', 1) or (tq.is_call(pc[0][0][3], 'builtins.len')
+                                                              and not (isinstance(cnt[1][0][4], tuple) and cnt[1][0][4][:1] == ('each',)))) and len(cnt[1][0][3]) == 1
             if ok:
                 filt, pol = cnt[1][0][3][0]
                 below = set()
